@@ -19,6 +19,8 @@ C07Viol ==
       bad == {i \in DOMAIN ts : (E.verdicts[i] = 1) # Triggered(E.rules, ts[i])}
   IN IF bad = {} THEN (IF E.conc > 0 THEN {[p |-> "C07", m |-> "TriggerFunction", cause |-> "decision-for-one-path-differs-between-concurrent-requests",
                                              sc |-> E.id, n |-> E.conc, at |-> l]} ELSE {})
+                      \cup (IF E.envDiff > 0 THEN {[p |-> "C07", m |-> "TriggerFunction", cause |-> "decision-depends-on-method-authority-or-headers-not-on-the-path-alone",
+                                                    sc |-> E.id, n |-> E.envDiff, at |-> l]} ELSE {})
      ELSE LET i == CHOOSE j \in bad : \A k \in bad : j <= k
           IN {[p |-> "C07", m |-> "TriggerFunction",
                cause |-> IF PathOf(ts[i]) # ts[i] /\ Triggered(E.rules, ts[i]) THEN "protected-path-not-triggered-because-of-query-or-fragment"
